@@ -360,10 +360,54 @@ func fnBitPos(ctx *cmdContext, args map[string]any) (output respValue, err error
 		return
 	}
 
-	// width must be sent to convert index args to bit offsets, and noEnd must be
-	// sent to handle a special case of searching for 0 bit
-	pos := findBit(strBytes, int(start64), int(end64), width, bit64 != 0, noEnd)
-	output.data = respInt(pos)
+	// normalise the range the way Redis does (in bytes, or in bits with the BIT unit)
+	length := len(strBytes)
+	if width == 1 {
+		length *= 8
+	}
+	start := int(start64)
+	end := int(end64)
+	if noEnd {
+		end = length - 1
+	}
+	if start < 0 {
+		start = length + start
+	}
+	if end < 0 {
+		end = length + end
+	}
+	if start < 0 {
+		start = 0
+	}
+	if end < 0 {
+		end = 0
+	}
+	if end >= length {
+		end = length - 1
+	}
+	if start > end {
+		// an empty range (also: the empty string) contains neither a 0 nor a 1
+		output.data = respInt(-1)
+		return
+	}
+
+	firstBit, lastBit := start, end
+	if width == 8 {
+		firstBit, lastBit = start*8, end*8+7
+	}
+	for i := firstBit; i <= lastBit; i++ {
+		if int64((strBytes[i/8]>>(7-(i%8)))&1) == bit64 {
+			output.data = respInt(i)
+			return
+		}
+	}
+
+	if bit64 == 0 && noEnd {
+		// without an explicit end the string is considered zero padded on the right
+		output.data = respInt(lastBit + 1)
+	} else {
+		output.data = respInt(-1)
+	}
 	return
 }
 
